@@ -41,5 +41,6 @@ Spec == Init /\ [][Next]_hist
 LawDocumented == \A i \in 1..NPool : Outcomes[i].cls \in Documented
 Emit == hist # <<>> => PrintT(ToJson([fam |-> "phist", probes |-> Probes,
                           calls |-> [k \in 1..Len(hist) |-> [idx |-> hist[k], name |-> Pool[hist[k]].name, s |-> Pool[hist[k]].s,
-                                                              cfg |-> Pool[hist[k]].cfg, acc |-> Pool[hist[k]].acc, out |-> Outcomes[hist[k]]]]]))
+                                                              cfg |-> Pool[hist[k]].cfg, acc |-> Pool[hist[k]].acc,
+                                                              variant |-> Pool[hist[k]].variant, extra |-> Pool[hist[k]].extra, out |-> Outcomes[hist[k]]]]]))
 =============================================================================
